@@ -279,4 +279,286 @@ example : session (fun x => if x = 3 then .ok [x * 10] else .ok [x * 10, x * 10 
 example : session (fun x => if x = 2 then .error .other else .ok [x * 10, x * 10 + 1]) [1, 2, 3] 1 = .error .other := by
   decide
 
+/-! ### the translated loader on the model's directory -/
+
+/-- `os.path.isfile(<results>/RSLT_NM.format(i))` on the model's directory -/
+def isFileOf (d : Crop.Dir β) (i : Int) : Bool := (Crop.lookup d.results i.toNat).isSome
+
+/-- `read_from_disk` of result file `i`: its content, an unpickling error, or no such file -/
+def readResultOf (d : Crop.Dir β) (i : Int) : Except PyErr (Option (List β)) :=
+  match Crop.lookup d.results i.toNat with
+  | some (.good rs) => .ok (some rs)
+  | some .bad => .error .other
+  | none => .error .fileNotFound
+
+/-- `read_from_disk` of batch file `i` -/
+def readBatchOf (d : Crop.Dir β) (i : Int) : Except PyErr (List (List Nat)) :=
+  match Crop.lookup d.batches i.toNat with
+  | some b => .ok b
+  | none => .error .fileNotFound
+
+/-- the function the translated `Reaper.__init__` maps over the files, with the directory operations answered by `d`.
+`dflt = none` stands for `_NO_DEFAULT`; `junk` is whatever value the sentinel is (the theorems hold for every `junk`);
+`bs` is `crop.batchsize` (not read by the source as it stands). -/
+def loadOf (d : Crop.Dir β) (wait : Bool) (dflt : Option β) (junk : β) (bs : Int) (fuel : Nat)
+    (existsAt : Nat → Int → Bool) (x : Int) : Except PyErr (List β) :=
+  Gen.reaperLoadFn dflt.isSome wait (dflt.getD junk) bs (isFileOf d) (readResultOf d) (readBatchOf d) fuel existsAt x
+
+theorem pollUntil_const (fuel : Nat) (b : Bool) (hfuel : 0 < fuel) :
+    Gen.pollUntil fuel (fun _ => b) = if b then some 0 else none := by
+  obtain ⟨k, rfl⟩ : ∃ k, fuel = k + 1 := ⟨fuel - 1, by omega⟩
+  cases b
+  · simp [Gen.pollUntil]
+  · simp [Gen.pollUntil, List.range_succ_eq_map]
+
+/-- the files the translated generator yields for `nb` batches: `1, …, nb` in this order -/
+theorem reaperFiles_eq (nb : Nat) : Gen.reaperFiles (nb : Int) = (List.range nb).map (fun (i : Nat) => (i : Int) + 1) := by
+  simp only [Gen.reaperFiles, Gen.Default.reaperFiles, Gen.pyRange]
+  apply List.ext_getElem
+  · simp
+  · intro i h1 h2
+    simp
+    try omega
+
+theorem foldl_reapStep_error (o : Crop.Obj) (d : Crop.Dir β) (dflt : Option β) (e : Crop.Err) (is : List Nat) :
+    is.foldl (Crop.reapStep o d dflt) (.error e) = .error e := by
+  induction is with
+  | nil => rfl
+  | cons i is ih => simpa [Crop.reapStep] using ih
+
+/-- **one file**: `Crop.reapStep` appends exactly what the translated loader returns for file `i0 + 1`, and fails when
+it raises.  The directory is static while the reap runs (`hstatic`: the model's reap is one atomic operation), a waiting
+loop is observed for at least one poll, and batch files are non-empty (C07). -/
+theorem reapStep_refines (o : Crop.Obj) (d : Crop.Dir β) (wait : Bool) (dflt : Option β) (junk : β) (bs : Int)
+    (fuel : Nat) (existsAt : Nat → Int → Bool) (hfuel : 0 < fuel) (hstatic : ∀ t x, existsAt t x = isFileOf d x)
+    (hbne : ∀ i b, Crop.lookup d.batches i = some b → b ≠ []) (stream : List β) (i0 : Nat) :
+    match loadOf d wait dflt junk bs fuel existsAt ((i0 : Int) + 1) with
+    | .ok rs => Crop.reapStep o d (if wait then none else dflt) (.ok stream) i0 = .ok (stream ++ rs)
+    | .error _ => ∃ e, Crop.reapStep o d (if wait then none else dflt) (.ok stream) i0 = .error e := by
+  have hnat : ((i0 : Int) + 1).toNat = i0 + 1 := by omega
+  have hpoll := pollUntil_const fuel (isFileOf d ((i0 : Int) + 1)) hfuel
+  have hpos : ∀ n : Nat, ¬ ((n : Int) + 1 = 0) := by intro n; omega
+  simp only [loadOf, Gen.reaperLoadFn, Gen.Default.reaperLoadFn, Gen.reaperWaitToLoad, Gen.Default.reaperWaitToLoad,
+    Gen.reaperLoad, Gen.Default.reaperLoad, Gen.stillWaiting, Crop.reapStep, hstatic, Bool.not_not, hpoll]
+  simp only [isFileOf, readResultOf, readBatchOf, hnat]
+  cases hres : Crop.lookup d.results (i0 + 1) with
+  | none =>
+    cases wait <;> cases dflt <;> simp
+    cases hb : Crop.lookup d.batches (i0 + 1) with
+    | none => simp
+    | some b =>
+      have := hbne _ _ hb
+      cases b with
+      | nil => exact absurd rfl this
+      | cons a t => simp [hpos]
+  | some r =>
+    cases r with
+    | bad => cases wait <;> cases dflt <;> simp
+    | good rs =>
+      cases rs with
+      | nil => cases wait <;> cases dflt <;> simp
+      | cons a t => cases wait <;> cases dflt <;> simp [hpos]
+
+/-- the model's left fold over the batch numbers is the chain over the translated loader -/
+theorem foldl_reapStep_refines (o : Crop.Obj) (d : Crop.Dir β) (wait : Bool) (dflt : Option β) (junk : β) (bs : Int)
+    (fuel : Nat) (existsAt : Nat → Int → Bool) (hfuel : 0 < fuel) (hstatic : ∀ t x, existsAt t x = isFileOf d x)
+    (hbne : ∀ i b, Crop.lookup d.batches i = some b → b ≠ []) :
+    ∀ (is : List Nat) (acc : List β),
+      (is.foldl (Crop.reapStep o d (if wait then none else dflt)) (.ok acc)).toOption =
+        (Gen.chainRest (loadOf d wait dflt junk bs fuel existsAt) (is.map fun (i : Nat) => (i : Int) + 1)).toOption.map
+          (acc ++ ·) := by
+  intro is
+  induction is with
+  | nil => intro acc; simp [Gen.chainRest, Except.toOption]
+  | cons i is ih =>
+    intro acc
+    have h := reapStep_refines o d wait dflt junk bs fuel existsAt hfuel hstatic hbne acc i
+    simp only [List.foldl_cons, List.map_cons, Gen.chainRest]
+    cases hl : loadOf d wait dflt junk bs fuel existsAt ((i : Int) + 1) with
+    | error e =>
+      simp only [hl] at h
+      obtain ⟨e', he⟩ := h
+      rw [he, foldl_reapStep_error]
+      simp [Except.toOption]
+    | ok rs =>
+      simp only [hl] at h
+      rw [h, ih]
+      cases Gen.chainRest (loadOf d wait dflt junk bs fuel existsAt) (is.map fun (i : Nat) => (i : Int) + 1) <;>
+        simp [Except.toOption, List.append_assoc]
+
+/-- **the stream**: `Crop.reapStream` succeeds exactly when loading the translated files `Gen.reaperFiles nb` in order
+with the translated loader succeeds, and then with the same stream — for every number of batches, every directory
+(every subset of finished batches, readable or not), waiting or not, with or without a stand-in -/
+theorem reapStream_refines (o : Crop.Obj) (d : Crop.Dir β) (wait : Bool) (dflt : Option β) (junk : β) (bs : Int)
+    (fuel : Nat) (existsAt : Nat → Int → Bool) (hfuel : 0 < fuel) (hstatic : ∀ t x, existsAt t x = isFileOf d x)
+    (hbne : ∀ i b, Crop.lookup d.batches i = some b → b ≠ []) (nb : Nat) :
+    (Crop.reapStream o d nb (if wait then none else dflt)).toOption =
+      (Gen.chainRest (loadOf d wait dflt junk bs fuel existsAt) (Gen.reaperFiles (nb : Int))).toOption := by
+  rw [reaperFiles_eq]
+  unfold Crop.reapStream
+  have := foldl_reapStep_refines o d wait dflt junk bs fuel existsAt hfuel hstatic hbne (List.range nb) []
+  rw [this]
+  cases Gen.chainRest (loadOf d wait dflt junk bs fuel existsAt) ((List.range nb).map fun (i : Nat) => (i : Int) + 1) <;>
+    simp [Except.toOption]
+
+theorem reapStream_ok_iff (o : Crop.Obj) (d : Crop.Dir β) (wait : Bool) (dflt : Option β) (junk : β) (bs : Int)
+    (fuel : Nat) (existsAt : Nat → Int → Bool) (hfuel : 0 < fuel) (hstatic : ∀ t x, existsAt t x = isFileOf d x)
+    (hbne : ∀ i b, Crop.lookup d.batches i = some b → b ≠ []) (nb : Nat) (s : List β) :
+    Crop.reapStream o d nb (if wait then none else dflt) = .ok s ↔
+      Gen.chainRest (loadOf d wait dflt junk bs fuel existsAt) (Gen.reaperFiles (nb : Int)) = .ok s := by
+  have h := reapStream_refines o d wait dflt junk bs fuel existsAt hfuel hstatic hbne nb
+  cases hA : Crop.reapStream o d nb (if wait then none else dflt) <;>
+    cases hB : Gen.chainRest (loadOf d wait dflt junk bs fuel existsAt) (Gen.reaperFiles (nb : Int)) <;>
+    simp [hA, hB, Except.toOption] at h ⊢
+  rw [h]
+
+/-- **the session**: what a runner making `n` calls gets from the translated Reaper (calls, then the exit check) is what
+the model's stream followed by the length checks of `Crop.reorder` gives — the results when the stream has exactly `n`
+elements, a failure otherwise -/
+theorem session_refines (P : Crop.Perms) (o : Crop.Obj) (d : Crop.Dir β) (wait : Bool) (dflt : Option β) (junk : β)
+    (bs : Int) (fuel : Nat) (existsAt : Nat → Int → Bool) (hfuel : 0 < fuel)
+    (hstatic : ∀ t x, existsAt t x = isFileOf d x)
+    (hbne : ∀ i b, Crop.lookup d.batches i = some b → b ≠ []) (nb n : Nat) :
+    (session (loadOf d wait dflt junk bs fuel existsAt) (Gen.reaperFiles (nb : Int)) n).toOption =
+      ((Crop.reapStream o d nb (if wait then none else dflt)).bind (Crop.reorder P 0 n)).toOption := by
+  rw [session_eq]
+  have h := reapStream_refines o d wait dflt junk bs fuel existsAt hfuel hstatic hbne nb
+  cases hA : Crop.reapStream o d nb (if wait then none else dflt) with
+  | error e =>
+    cases hB : Gen.chainRest (loadOf d wait dflt junk bs fuel existsAt) (Gen.reaperFiles (nb : Int)) with
+    | error e' => simp [Except.bind, Except.toOption]
+    | ok s => simp [hA, hB, Except.toOption] at h
+  | ok s =>
+    cases hB : Gen.chainRest (loadOf d wait dflt junk bs fuel existsAt) (Gen.reaperFiles (nb : Int)) with
+    | error e' => simp [hA, hB, Except.toOption] at h
+    | ok s' =>
+      simp [hA, hB, Except.toOption] at h
+      subst h
+      simp only [Except.bind, lengthGate, Crop.reorder]
+      by_cases h1 : n < s.length
+      · have : ¬ s.length < n := by omega
+        simp [h1, this, Except.toOption]
+      · by_cases h2 : s.length < n
+        · simp [h1, h2, Except.toOption]
+        · simp [h1, h2, Except.toOption]
+
+/-! ### theorems stated on the translated `_load` / `wait_to_load` -/
+
+theorem pollUntil_some (fuel : Nat) (p : Nat → Bool) (h : ∃ t, t < fuel ∧ p t = true) :
+    ∃ t, Gen.pollUntil fuel p = some t := by
+  obtain ⟨t, ht, hp⟩ := h
+  have : (Gen.pollUntil fuel p).isSome = true := by
+    simp only [Gen.pollUntil, List.find?_isSome]
+    exact ⟨t, by simpa using ht, hp⟩
+  exact Option.isSome_iff_exists.mp this
+
+theorem pollUntil_none (fuel : Nat) (p : Nat → Bool) (h : ∀ t, t < fuel → p t = false) :
+    Gen.pollUntil fuel p = none := by
+  simp only [Gen.pollUntil, List.find?_eq_none]
+  intro t ht
+  simp [h t (by simpa using ht)]
+
+/-- **with a stand-in and not waiting, a missing result file never raises**: it contributes one stand-in per setting of
+the batch file it belongs to -/
+theorem reaperLoad_missing_default (dflt : β) (bs : Int) (isFile : Int → Bool)
+    (readResult : Int → Except PyErr (Option (List β))) (readBatch : Int → Except PyErr (List γ)) (x : Int) (b : List γ)
+    (hmiss : isFile x = false) (hb : readBatch x = .ok b) (hne : b ≠ []) :
+    Gen.reaperLoad true false dflt bs isFile readResult readBatch x = .ok (List.replicate b.length dflt) := by
+  cases b with
+  | nil => exact absurd rfl hne
+  | cons a t =>
+    have hpos : ∀ n : Nat, ¬ ((n : Int) + 1 = 0) := by intro n; omega
+    simp [Gen.reaperLoad, Gen.Default.reaperLoad, hmiss, hb, hpos]
+
+/-- **a result file that is there, readable and non-empty is loaded as it is** — waiting (once the loop has seen it) or
+not, with or without a stand-in: a stand-in never replaces an existing result -/
+theorem reaperLoadFn_present (hasDefault wait : Bool) (dflt : β) (bs : Int) (isFile : Int → Bool)
+    (readResult : Int → Except PyErr (Option (List β))) (readBatch : Int → Except PyErr (List γ)) (fuel : Nat)
+    (existsAt : Nat → Int → Bool) (x : Int) (rs : List β)
+    (hfile : isFile x = true) (hex : wait = true → ∃ t, t < fuel ∧ existsAt t x = true)
+    (hr : readResult x = .ok (some rs)) (hne : rs ≠ []) :
+    Gen.reaperLoadFn hasDefault wait dflt bs isFile readResult readBatch fuel existsAt x = .ok rs := by
+  cases rs with
+  | nil => exact absurd rfl hne
+  | cons a t =>
+    have hpos : ∀ n : Nat, ¬ ((n : Int) + 1 = 0) := by intro n; omega
+    cases wait with
+    | false =>
+      simp [Gen.reaperLoadFn, Gen.Default.reaperLoadFn, Gen.reaperLoad, Gen.Default.reaperLoad, hfile, hr, hpos]
+    | true =>
+      obtain ⟨t0, ht0⟩ := pollUntil_some fuel (fun t => existsAt t x) (by simpa using hex rfl)
+      simp [Gen.reaperLoadFn, Gen.Default.reaperLoadFn, Gen.reaperWaitToLoad, Gen.Default.reaperWaitToLoad,
+        Gen.reaperLoad, Gen.Default.reaperLoad, hfile, hr, hpos, ht0]
+
+/-- **a waiting Reaper whose file does not show up is still waiting**: it neither raises nor uses a stand-in -/
+theorem reaperLoadFn_waiting (hasDefault : Bool) (dflt : β) (bs : Int) (isFile : Int → Bool)
+    (readResult : Int → Except PyErr (Option (List β))) (readBatch : Int → Except PyErr (List γ)) (fuel : Nat)
+    (existsAt : Nat → Int → Bool) (x : Int) (hnever : ∀ t, t < fuel → existsAt t x = false) :
+    Gen.reaperLoadFn hasDefault true dflt bs isFile readResult readBatch fuel existsAt x = Gen.stillWaiting := by
+  have := pollUntil_none fuel (fun t => existsAt t x) (by simpa using hnever)
+  simp [Gen.reaperLoadFn, Gen.Default.reaperLoadFn, Gen.reaperWaitToLoad, Gen.Default.reaperWaitToLoad, this]
+
+/-- **the stream over files that are all there** is the concatenation of their contents in the order of
+`Gen.reaperFiles` — waiting or not, with or without a stand-in -/
+theorem reaperStream_full (hasDefault wait : Bool) (dflt : β) (bs : Int) (isFile : Int → Bool)
+    (readResult : Int → Except PyErr (Option (List β))) (readBatch : Int → Except PyErr (List γ)) (fuel : Nat)
+    (existsAt : Nat → Int → Bool) (content : Int → List β) :
+    ∀ (files : List Int),
+      (∀ x ∈ files, isFile x = true ∧ (wait = true → ∃ t, t < fuel ∧ existsAt t x = true) ∧
+        readResult x = .ok (some (content x)) ∧ content x ≠ []) →
+      Gen.chainRest (Gen.reaperLoadFn hasDefault wait dflt bs isFile readResult readBatch fuel existsAt) files =
+        .ok (files.flatMap content) := by
+  intro files
+  induction files with
+  | nil => intro _; simp [Gen.chainRest]
+  | cons f files ih =>
+    intro h
+    obtain ⟨h1, h2, h3, h4⟩ := h f (by simp)
+    have := reaperLoadFn_present hasDefault wait dflt bs isFile readResult readBatch fuel existsAt f _ h1 h2 h3 h4
+    simp [Gen.chainRest, this, ih (fun x hx => h x (by simp [hx]))]
+
+/-- **with a stand-in and not waiting the stream never fails on a missing result**: if every result file that is there
+is readable and non-empty, and every batch file is readable and non-empty, the whole stream loads -/
+theorem reaperStream_default_total (dflt : β) (bs : Int) (isFile : Int → Bool)
+    (readResult : Int → Except PyErr (Option (List β))) (readBatch : Int → Except PyErr (List γ)) (fuel : Nat)
+    (existsAt : Nat → Int → Bool) :
+    ∀ (files : List Int),
+      (∀ x ∈ files, (isFile x = true → ∃ rs, readResult x = .ok (some rs) ∧ rs ≠ []) ∧
+        (∃ b, readBatch x = .ok b ∧ b ≠ [])) →
+      ∃ s, Gen.chainRest (Gen.reaperLoadFn true false dflt bs isFile readResult readBatch fuel existsAt) files = .ok s := by
+  intro files
+  induction files with
+  | nil => intro _; exact ⟨[], by simp [Gen.chainRest]⟩
+  | cons f files ih =>
+    intro h
+    obtain ⟨h1, b, hb, hbne⟩ := h f (by simp)
+    obtain ⟨s, hs⟩ := ih (fun x hx => h x (by simp [hx]))
+    cases hf : isFile f with
+    | true =>
+      obtain ⟨rs, hr, hne⟩ := h1 hf
+      have := reaperLoadFn_present true false dflt bs isFile readResult readBatch fuel existsAt f rs hf (by simp) hr hne
+      exact ⟨rs ++ s, by simp [Gen.chainRest, this, hs]⟩
+    | false =>
+      have := reaperLoad_missing_default dflt bs isFile readResult readBatch f b hf hb hbne
+      have h2 : Gen.reaperLoadFn true false dflt bs isFile readResult readBatch fuel existsAt f =
+          .ok (List.replicate b.length dflt) := by
+        simpa [Gen.reaperLoadFn, Gen.Default.reaperLoadFn] using this
+      exact ⟨List.replicate b.length dflt ++ s, by simp [Gen.chainRest, h2, hs]⟩
+
+/-- **how `reap_combos` makes its Reaper**: for the stored number of batches, with the caller's `wait`, and with a
+stand-in exactly when `allow_incomplete` is given (`calc_clean_up_default_res`) — the arguments `Crop.reapLinear` hands
+to `Crop.reapStream` -/
+theorem reapCombos_reaper_args (wait : Bool) (cleanUp : Option Bool) (allowIncomplete : Bool) (infoNb : Int) :
+    Gen.reapCombosReaper wait cleanUp allowIncomplete infoNb = .ok (infoNb, wait, allowIncomplete) := by
+  cases cleanUp <;> cases allowIncomplete <;>
+    simp [Gen.reapCombosReaper, Gen.Default.reapCombosReaper, Gen.calcCleanUp, Gen.Default.calcCleanUp]
+
+/-! Non-vacuity: a two-batch directory with batch 2 missing; with the stand-in 99 the stream is the result of batch 1
+followed by one stand-in per setting of batch 2; without it the reap fails -/
+example : Gen.chainRest (loadOf (β := Nat) { batches := [(1, [[0], [1]]), (2, [[2]])], results := [(1, .good [10, 11])] }
+    false (some 99) 0 2 1 (fun _ _ => true)) (Gen.reaperFiles 2) = .ok [10, 11, 99] := by decide
+example : Gen.chainRest (loadOf (β := Nat) { batches := [(1, [[0], [1]]), (2, [[2]])], results := [(1, .good [10, 11])] }
+    false none 0 2 1 (fun _ _ => true)) (Gen.reaperFiles 2) = .error .fileNotFound := by decide
+example : Gen.reapCombosReaper true none true 3 = .ok (3, true, true) := by decide
+
 end Reaper
